@@ -426,7 +426,11 @@ def parse_opcode(p: Parser) -> OpcodeAstNode:
     addressing_mode, inner_index, operand = parse_operand_and_addressing(addressing_mode, opcode, p)
 
     if accept_token(p.current(), TokenType.ADDRESSING_MODE_INDEX):
-        index = p.next().value.lower()
+        index_token = p.next()
+        index = index_token.value.lower()
+        if addressing_mode == AddressingMode.dp_or_sr_indirect_indexed and (inner_index or "").lower() != "s":
+            # only (sr,s),y may carry an index after the closing parenthesis.
+            raise ParserSyntaxError("Invalid index combination", index_token)
         addressing_mode = index_map[addressing_mode]
 
     return OpcodeAstNode(
